@@ -11,6 +11,7 @@ class LOOP:
     modifies: Optional[List[str]] = None   # extra names/heap objects to havoc
     ghost_update: Dict[str, str] = field(default_factory=dict)  # ghost := expr at end of each iteration
     use: List[Tuple[str, Dict[str, str]]] = field(default_factory=list)  # lemma instances for preserve VCs
+    ghost_head: Dict[str, str] = field(default_factory=dict)    # ghost := expr at the start of each iteration
 
 
 @dataclass
@@ -33,6 +34,12 @@ class FN:
     top: List[str] = field(default_factory=list)
     assume_types: bool = True
     use: List[Tuple[str, Dict[str, str]]] = field(default_factory=list)  # lemma instances for ensures VCs
+    # generators (step contract): clauses checked at every `yield` (over `yielded`) and at generator end
+    yields: List[Tuple[str, str]] = field(default_factory=list)
+    ends: List[Tuple[str, str]] = field(default_factory=list)
+    generator: bool = False
+    # exceptional postconditions: (ExcName, expr over the exit state) checked at raise exits, assumed by callers
+    on_raise: List[Tuple[str, str]] = field(default_factory=list)
 
 
 @dataclass
